@@ -250,7 +250,7 @@ func SshErrors() SshErrFacts {
 	return f
 }
 
-func leanStr(s string) string { return strconv.Quote(s) }
+func c10leanStr(s string) string { return strconv.Quote(s) }
 
 // GenSshErrors renders Generated/SshErrors.lean.
 func GenSshErrors() string {
@@ -272,7 +272,7 @@ func GenSshErrors() string {
 		}
 		rx := "none"
 		if r.AppendRx != "" {
-			rx = "some " + leanStr(r.AppendRx)
+			rx = "some " + c10leanStr(r.AppendRx)
 		}
 		sep := ","
 		if i == len(f.Rows)-1 {
@@ -281,11 +281,11 @@ func GenSshErrors() string {
 		fmt.Fprintf(&b, "  -- %s\n  ⟨[%s], %s, [%s], %s⟩%s\n", strings.Join(r.Triggers, " | "), strings.Join(ts, ", "), LeanBytes(r.Msg), strings.Join(ss, ", "), rx, sep)
 	}
 	b.WriteString("]\n\n")
-	fmt.Fprintf(&b, "/-- the `util.Err*` value the returned error wraps -/\ndef errClass : String := %s\n\n", leanStr(f.ErrClass))
+	fmt.Fprintf(&b, "/-- the `util.Err*` value the returned error wraps -/\ndef errClass : String := %s\n\n", c10leanStr(f.ErrClass))
 	fmt.Fprintf(&b, "/-- the switch tests `bytes.ToLower(b)` -/\ndef lowered : Bool := %v\n\n", f.Lowered)
 	var us []string
 	for _, u := range f.Unparsed {
-		us = append(us, leanStr(u))
+		us = append(us, c10leanStr(u))
 	}
 	fmt.Fprintf(&b, "/-- parts of the function the extractor did not understand (must be empty) -/\ndef unparsed : List String := [%s]\n", strings.Join(us, ", "))
 	b.WriteString("\nend Scrapli.Gen.SshErrors\n")
